@@ -155,8 +155,11 @@ def run(p, report, tier):
                     n_draw += 1
                     gen = ev.data["gen"]
                     cls = classify_gen(gen)
-                    via = f" via {site_id(ev.stack[0][1])}" if ev.stack else ""
-                    construct = f"draw {ev.data['method']} in {ev.fi.qual}: {norm_stmt(ev.node, 70)}{via}"
+                    # keyed by the entity-level call site (a refactored helper must not re-key a finding)
+                    if ev.stack:
+                        construct = f"draw {ev.data['method']} via {site_id(ev.stack[0][1])}"
+                    else:
+                        construct = f"draw {ev.data['method']} in {ev.fi.qual}: {norm_stmt(ev.node, 70)}"
                     if ev.data.get("global_call"):
                         continue  # R6.1 reports the site itself
                     ok = cls != "global"
